@@ -67,6 +67,8 @@ impl SyncFlag {
 
     #[inline]
     fn wakeup_all(&self) {
+        #[cfg(may_verif)]
+        crate::verif::pt("flag.wakeup", crate::verif::addr(self), 0, 0);
         while let Some(w) = self.to_wake.pop() {
             w.unpark();
             if w.take_release() {
@@ -78,14 +80,20 @@ impl SyncFlag {
     // return false if timeout
     fn wait_timeout_impl(&self, dur: Option<Duration>) -> bool {
         // try wait first
+        #[cfg(may_verif)]
+        crate::verif::pt("flag.wait.load", crate::verif::addr(self), 0, 0);
         if self.is_fired() {
             return true;
         }
 
         let cur = SyncBlocker::current();
         // register blocker first
+        #[cfg(may_verif)]
+        crate::verif::pt("flag.wait.push", crate::verif::addr(self), crate::verif::addr(&*cur), 0);
         self.to_wake.push(cur.clone());
         // dec the cnt, if it's positive, unpark one waiter
+        #[cfg(may_verif)]
+        crate::verif::pt("flag.wait.dec", crate::verif::addr(self), 0, 0);
         if self.cnt.fetch_sub(1, Ordering::SeqCst) > 0 {
             self.wakeup_all();
         }
@@ -130,6 +138,8 @@ impl SyncFlag {
     /// set the SyncFlag to true
     /// and would wakeup all threads/coroutines that are calling `wait`
     pub fn fire(&self) {
+        #[cfg(may_verif)]
+        crate::verif::pt("flag.fire.store", crate::verif::addr(self), 0, 0);
         self.cnt.store(isize::MAX, Ordering::SeqCst);
 
         // try to wakeup all waiters
